@@ -155,13 +155,24 @@ def protocol_block(_b):
             for i in range(1, nI):
                 labs.append(dict(labs[0], pressure_mode='absolute', pressure_unit=('Pa', 'torr')[i % 2], loading_unit=('mol', 'kmol')[i % 2], material_unit='kg'))
             isos = [IsoRec(i, eng, labs[i]) for i in range(nI)]
+            for i in range(nI):
+                for j in range(i):
+                    eng.assume(sx.Not(sx.eq(isos[i].temperature, isos[j].temperature)))  # a regression needs distinct temperatures
             rec = {}
             real_raw = ISO.isosteric_enthalpy_raw
             ISO.isosteric_enthalpy_raw = lambda pr, T: rec.update(pressures=pr, T=T) or ([0], [0], [0], [0])
+            out = 'return'
             try:
                 ISO.isosteric_enthalpy(isos, loading_points=[1.5, 2.5], branch='des')
+            except (sx.Unsupported, sx._Infeasible):
+                raise
+            except Exception as exc:
+                out = f"{type(exc).__name__}: {str(exc)[:80]}"
             finally:
                 ISO.isosteric_enthalpy_raw = real_raw
+            eng.prove(f"{base}/protocol.entry_point_returns/{cfg}", out == 'return', extra={'observed': out, 'replay': {'kind': 'c19.order'}})
+            if out != 'return':
+                return
             pa = [c for iso in isos for c in iso.calls if c[0] == 'pressure_at']
             eng.prove(f"{base}/protocol.one_pressure_query_per_isotherm/{cfg}", len(pa) == nI)
             keys_l = [{k: c[1].get(k) for k in ('loading_unit', 'material_unit', 'branch')} for c in pa]
@@ -174,7 +185,8 @@ def protocol_block(_b):
             eng.prove(f"{base}/protocol.common_complete_pressure_representation_requested/{cfg}", bool(complete),
                       extra={'observed': str(keys_p), 'replay': {'kind': 'c19.units'}})
             eng.prove(f"{base}/protocol.temperatures_in_kelvin_passed_in_isotherm_order/{cfg}",
-                      rec.get('T') is not None and len(rec['T']) == nI and all(rec['T'][i] is isos[i].temperature for i in range(nI)))
+                      rec.get('T') is not None and len(rec['T']) == nI and all(rec['T'][i] is isos[i].temperature for i in range(nI)),
+                      extra={'replay': {'kind': 'c19.order'}})
             pr = rec.get('pressures')
             eng.prove(f"{base}/protocol.rows_are_loadings_columns_are_isotherms/{cfg}",
                       pr is not None and pr.shape == (2, nI) and all(pr[k, i] is eng.real(f'P_{i}_{k}') for k in range(2) for i in range(nI)))
